@@ -436,13 +436,7 @@ theorem syInv_atom (e : Expr) (tk : Tok) (h1 : ptoks e = [tk]) (h2 : rpn e = [.o
 theorem numTok_t (n : NumLit) (p : Bool) : (numTok n p).t = .operand := by
   cases p <;> rfl
 
-theorem ptoksArgs_cons2 (a a' : Expr) (as' : List Expr) :
-    ptoksArgs (a :: a' :: as') = ptoks a ++ commaTok :: ptoksArgs (a' :: as') := by
-  simp [ptoksArgs]
-
-theorem ptoksArgs_single (a : Expr) : ptoksArgs [a] = ptoks a := by simp [ptoksArgs]
-
-theorem run_args (T : Tbl) (f : List Char) (st : List Tok) (hst : StackOK st) (wv : List Bool)
+theorem run_args (f : List Char) (st : List Tok) (hst : StackOK st) (wv : List Bool)
     (ac : List Nat) : ∀ (args : List Expr), (∀ x ∈ args, SYInv x) → (∀ x ∈ args, WF x) →
       ∀ (out : List Node) (w : Bool) (k : Nat), (args = [] → w = false) →
       run { output := out, stack := argLp :: fnName f :: st, wereValues := w :: wv, argCount := k :: ac }
@@ -551,7 +545,7 @@ theorem syInv (T : Tbl) : ∀ e, SYInv e := by
     refine ⟨[], s.output ++ rpnArgs args ++ [.func (fnName f) args.length], ?_,
       AllGe.nil _, (by simp [nodesOf, rpn])⟩
     simp only [ptoks, List.cons_append, run, step_fn, step_argLp]
-    have := run_args T f s.stack hok (setTopTrue s.wereValues) s.argCount args ih hargs s.output false 0
+    have := run_args f s.stack hok (setTopTrue s.wereValues) s.argCount args ih hargs s.output false 0
       (fun _ => rfl)
     simp only [Nat.zero_add] at this
     rw [this]
@@ -578,5 +572,86 @@ theorem prepare_append (a b : List Tok) : prepare [] (a ++ b) = prepare [] a ++ 
     simp only [List.cons_append, prepare]
     split <;> (try split) <;> (try split) <;> (try split) <;> (try split) <;>
       (try cases t.v) <;> simp [ih, Model.Value.lookup]
+
+theorem prepare_toks (e : Expr) : prepare [] (toks e) = ptoks e := by
+  induction e using Expr.rec (motive_2 := fun as => prepare [] (toksArgs as) = ptoksArgs as) with
+  | num n p => cases p <;> simp [toks, ptoks, prepare, numTok]
+  | str s => simp [toks, ptoks, prepare, strTok]
+  | bool b => simp [toks, ptoks, prepare, boolTok]
+  | err c => simp [toks, ptoks, prepare, errTok]
+  | ref r => simp [toks, ptoks, prepare, refTok, Model.Value.lookup]
+  | neg e ih => simp [toks, ptoks, prepare, negTok, ih]
+  | bin o l r ihl ihr =>
+    simp only [toks, ptoks, prepare_append, ihl]
+    simp [prepare, binTok, ihr]
+  | paren e ih =>
+    simp only [toks, ptoks, prepare, lpTok, List.cons_append]
+    simp [prepare_append, ih, prepare, rpTok, lpTok', rpTok']
+  | call a f args ih =>
+    simp only [toks, ptoks, prepare, fnTok, List.cons_append]
+    simp [prepare_append, ih, prepare, fnStop, fnName, argLp, argRp, tok]
+  | nil => rfl
+  | cons a as iha ihas =>
+    cases as with
+    | nil => simpa [toksArgs, ptoksArgs] using iha
+    | cons a' as' =>
+      rw [toksArgs_cons2, ptoksArgs_cons2, prepare_append, iha]
+      simp only [prepare, commaTok]
+      simp [ihas]
+
+/-- the shunting yard proper (after `prepare` and the `:` check) on the tokens of a well-formed `e` -/
+theorem sy_core (T : Tbl) (e : Expr) (hwf : WF e) :
+    (match (ptoks e).foldlM step ({} : SY) with
+     | Except.error x => Except.error x
+     | Except.ok s => drain s) = .ok (rpn e) := by
+  rw [foldlM_eq_run]
+  have := syInv T e hwf {} (by intro x hx; cases hx) trivial
+  have h := drain_after e _ this
+  cases hr : run {} (ptoks e) with
+  | error x => rw [hr] at h; exact h
+  | ok s => rw [hr] at h; exact h
+
+/-! ### `buildAst` -/
+
+theorem build_rpn (e : Expr) : ∀ (rest : List Node) (st : List Ast),
+    buildAst (rpn e ++ rest) st = buildAst rest (astOf e :: st) := by
+  induction e using Expr.rec (motive_2 := fun as => ∀ (rest : List Node) (st : List Ast),
+      buildAst (rpnArgs as ++ rest) st = buildAst rest ((astsOf as).reverse ++ st)) with
+  | num n p => intro rest st; simp [rpn, buildAst, astOf]
+  | str s => intro rest st; simp [rpn, buildAst, astOf]
+  | bool b => intro rest st; simp [rpn, buildAst, astOf]
+  | err c => intro rest st; simp [rpn, buildAst, astOf]
+  | ref r => intro rest st; simp [rpn, buildAst, astOf]
+  | neg e ih =>
+    intro rest st
+    simp only [rpn, List.append_assoc, ih, List.cons_append, List.nil_append, buildAst, astOf]
+    simp [negTok]
+  | bin o l r ihl ihr =>
+    intro rest st
+    simp only [rpn, List.append_assoc, ihl, ihr, List.cons_append, List.nil_append, buildAst, astOf]
+    simp [binTok]
+  | paren e ih => intro rest st; simpa [rpn, astOf] using ih rest st
+  | call a f args ih =>
+    intro rest st
+    simp only [rpn, List.append_assoc, ih, List.cons_append, List.nil_append, buildAst, astOf]
+    have hl : ((astsOf args).reverse ++ st).length ≥ args.length := by simp [astsOf_length]
+    have h1 : ¬ ((astsOf args).reverse ++ st).length < args.length := by omega
+    simp only [h1, if_false]
+    have h2 : ((astsOf args).reverse ++ st).take args.length = (astsOf args).reverse := by
+      rw [List.take_append_of_le_length (by simp [astsOf_length])]
+      rw [List.take_of_length_le (by simp [astsOf_length])]
+    have h3 : ((astsOf args).reverse ++ st).drop args.length = st := by
+      rw [List.drop_append_of_le_length (by simp [astsOf_length])]
+      rw [List.drop_of_length_le (by simp [astsOf_length])]
+      rfl
+    rw [h2, h3, List.reverse_reverse]
+  | nil => rfl
+  | cons a as iha ihas =>
+    simp only [rpnArgs, List.append_assoc, iha, ihas, astsOf, List.reverse_cons]
+    simp
+
+theorem buildAst_rpn (e : Expr) : buildAst (rpn e) [] = .ok (astOf e) := by
+  have := build_rpn e [] []
+  simpa [buildAst] using this
 
 end XlVerif.Lemmas.C02
